@@ -62,12 +62,12 @@ def isValidGoIdent : Name → Bool
   | [] => false
   | c :: rest => isIdentStart c && rest.all isIdentChar
 
-def keywordNames : List Name := goKeywords.map String.toList
+def keywordNames : List Name := goKeywords
 
 /-- `is_go_keyword` -/
 def isGoKeyword (n : Name) : Bool := keywordNames.contains n
 
-def hexChars : List Char := "0123456789abcdef".toList
+def hexChars : List Char := ['0', '1', '2', '3', '4', '5', '6', '7', '8', '9', 'a', 'b', 'c', 'd', 'e', 'f']
 def hexDigit (n : Nat) : Char := hexChars.getD (n % 16) '0'
 /-- `{:02x}` of one byte -/
 def hex2 (b : Nat) : Name := [hexDigit (b / 16), hexDigit b]
@@ -77,9 +77,9 @@ def utf8 (c : Char) : List Nat := (String.utf8EncodeChar c).map UInt8.toNat
 def escChar (c : Char) : Name :=
   if isAsciiAlnum c then [c]
   else if escToUnderscore.contains c then ['_']
-  else escHexOpen.toList ++ (utf8 c).flatMap hex2 ++ [escHexClose]
+  else escHexOpen ++ (utf8 c).flatMap hex2 ++ [escHexClose]
 
-def escape (n : Name) : Name := escPrefix.toList ++ n.flatMap escChar
+def escape (n : Name) : Name := escPrefix ++ n.flatMap escChar
 
 /-- `go::mangle::go_ident` -/
 def goIdent (n : Name) : Name :=
@@ -108,12 +108,12 @@ def constrName : Ty → Option Name
   | .tenum n => some n
   | .tstruct n => some n
   | .tapp t _ => constrName t
-  | .tvec _ => some "Vec".toList
-  | .tref _ => some "Ref".toList
+  | .tvec _ => some ['V', 'e', 'c']
+  | .tref _ => some ['R', 'e', 'f']
   | _ => none
 
 /-- placeholder where the Rust would have panicked (`encodeOk`/`goTypeNameOk`/`inherentOk` exclude these inputs) -/
-def panicMark : Name := "<panic>".toList
+def panicMark : Name := ['<', 'p', 'a', 'n', 'i', 'c', '>']
 
 mutual
 /-- inputs on which `encode_ty` does not panic: every `TApp` it visits has a constructor head
@@ -134,22 +134,22 @@ end
 mutual
 /-- `go::mangle::encode_ty` -/
 def encodeTy : Ty → Name
-  | .tvar _ => "Var".toList
-  | .prim p => (encodeTyPrim p).toList
-  | .tparam n => "TParam_".toList ++ n
-  | .ttuple ts => "Tuple_".toList ++ join ['_'] (encodeTys ts)
+  | .tvar _ => ['V', 'a', 'r']
+  | .prim p => encodeTyPrim p
+  | .tparam n => ['T', 'P', 'a', 'r', 'a', 'm', '_'] ++ n
+  | .ttuple ts => ['T', 'u', 'p', 'l', 'e', '_'] ++ join ['_'] (encodeTys ts)
   | .tenum n => n
   | .tstruct n => n
-  | .tdyn tr => "Dyn_".toList ++ tr
+  | .tdyn tr => ['D', 'y', 'n', '_'] ++ tr
   | .tapp t args =>
     let base := (constrName t).getD panicMark
     match args with
     | [] => base
     | _ => base ++ ['_'] ++ join ['_'] (encodeTys args)
-  | .tarray len e => "Array_".toList ++ digits len ++ ['_'] ++ encodeTy e
-  | .tvec e => "Vec_".toList ++ encodeTy e
-  | .tref e => "Ref_".toList ++ encodeTy e
-  | .tfunc ps r => "Fn_".toList ++ join ['_'] (encodeTys ps) ++ "_to_".toList ++ encodeTy r
+  | .tarray len e => ['A', 'r', 'r', 'a', 'y', '_'] ++ digits len ++ ['_'] ++ encodeTy e
+  | .tvec e => ['V', 'e', 'c', '_'] ++ encodeTy e
+  | .tref e => ['R', 'e', 'f', '_'] ++ encodeTy e
+  | .tfunc ps r => ['F', 'n', '_'] ++ join ['_'] (encodeTys ps) ++ ['_', 't', 'o', '_'] ++ encodeTy r
 def encodeTys : List Ty → List Name
   | [] => []
   | t :: ts => encodeTy t :: encodeTys ts
@@ -158,20 +158,20 @@ end
 mutual
 /-- `Ty::to_doc` rendered (`to_pretty`; the document contains no breakable space) -/
 def tyPretty : Ty → Name
-  | .tvar n => "TypeVar(".toList ++ digits n ++ [')']
-  | .prim p => (toDocPrim p).toList
-  | .ttuple ts => ['('] ++ join ", ".toList (tyPrettys ts) ++ [')']
+  | .tvar n => ['T', 'y', 'p', 'e', 'V', 'a', 'r', '('] ++ digits n ++ [')']
+  | .prim p => toDocPrim p
+  | .ttuple ts => ['('] ++ join [',', ' '] (tyPrettys ts) ++ [')']
   | .tenum n => n
   | .tstruct n => n
-  | .tdyn tr => "dyn ".toList ++ tr
+  | .tdyn tr => ['d', 'y', 'n', ' '] ++ tr
   | .tapp t args =>
     match args with
     | [] => tyPretty t
-    | _ => tyPretty t ++ ['['] ++ join ", ".toList (tyPrettys args) ++ [']']
-  | .tarray len e => ['['] ++ tyPretty e ++ "; ".toList ++ digits len ++ [']']
-  | .tvec e => "Vec[".toList ++ tyPretty e ++ [']']
-  | .tref e => "Ref[".toList ++ tyPretty e ++ [']']
-  | .tfunc ps r => ['('] ++ join ", ".toList (tyPrettys ps) ++ ") -> ".toList ++ tyPretty r
+    | _ => tyPretty t ++ ['['] ++ join [',', ' '] (tyPrettys args) ++ [']']
+  | .tarray len e => ['['] ++ tyPretty e ++ [';', ' '] ++ digits len ++ [']']
+  | .tvec e => ['V', 'e', 'c', '['] ++ tyPretty e ++ [']']
+  | .tref e => ['R', 'e', 'f', '['] ++ tyPretty e ++ [']']
+  | .tfunc ps r => ['('] ++ join [',', ' '] (tyPrettys ps) ++ [')', ' ', '-', '>', ' '] ++ tyPretty r
   | .tparam n => n
 def tyPrettys : List Ty → List Name
   | [] => []
@@ -183,31 +183,31 @@ def tyCompact (t : Ty) : Name := (tyPretty t).filter (fun c => !isWhitespace c)
 
 /-- `goast::ref_struct_name` -/
 def refStructName (elem : Ty) : Name :=
-  "ref_".toList ++ (goIdent (encodeTy elem)).map toAsciiLower ++ "_x".toList
+  ['r', 'e', 'f', '_'] ++ (goIdent (encodeTy elem)).map toAsciiLower ++ ['_', 'x']
 
 /-- `goast::dyn_struct_name` = `compile::dyn_struct_go_name` -/
-def dynStructName (tr : Name) : Name := goIdent ("dyn__".toList ++ tr)
+def dynStructName (tr : Name) : Name := goIdent (['d', 'y', 'n', '_', '_'] ++ tr)
 
 def replaceChars (set : List Char) (n : Name) : Name := n.map (fun c => if set.contains c then '_' else c)
 
 mutual
 /-- `goast::go_type_name_for` -/
 def goTypeNameFor : Ty → Name
-  | .prim p => (goTypeNamePrim p).toList
+  | .prim p => goTypeNamePrim p
   | .tenum n => goIdent n
   | .tstruct n => goIdent n
   | .tdyn tr => dynStructName tr
   | .tapp t _ => goTypeNameFor t
-  | .ttuple ts => "Tuple".toList ++ digits ts.length ++ goTypeNameComps ts
-  | .tarray len e => "Array".toList ++ digits len ++ ['_'] ++ replaceChars typeNameReplaced (goTypeNameFor e)
-  | .tvec e => "Vec_".toList ++ replaceChars typeNameReplaced (goTypeNameFor e)
-  | .tref e => "Ptr_".toList ++ replaceChars typeNameReplacedRef (refStructName e)
+  | .ttuple ts => ['T', 'u', 'p', 'l', 'e'] ++ digits ts.length ++ goTypeNameComps ts
+  | .tarray len e => ['A', 'r', 'r', 'a', 'y'] ++ digits len ++ ['_'] ++ replaceChars typeNameReplaced (goTypeNameFor e)
+  | .tvec e => ['V', 'e', 'c', '_'] ++ replaceChars typeNameReplaced (goTypeNameFor e)
+  | .tref e => ['P', 't', 'r', '_'] ++ replaceChars typeNameReplacedRef (refStructName e)
   | .tfunc ps r =>
-    "TFunc".toList ++ (match ps with
-      | [] => "_unit".toList
+    ['T', 'F', 'u', 'n', 'c'] ++ (match ps with
+      | [] => ['_', 'u', 'n', 'i', 't']
       | _ => goTypeNameParams ps) ++ ['_'] ++ goTypeNameFor r
-  | .tvar n => "TVar(".toList ++ digits n ++ [')']
-  | .tparam n => "TParam(".toList ++ n ++ [')']
+  | .tvar n => ['T', 'V', 'a', 'r', '('] ++ digits n ++ [')']
+  | .tparam n => ['T', 'P', 'a', 'r', 'a', 'm', '('] ++ n ++ [')']
 /-- tuple components: `_` + name with the bracket characters replaced -/
 def goTypeNameComps : List Ty → Name
   | [] => []
@@ -242,7 +242,7 @@ def inherentOk : Ty → Bool
 
 /-- `names::trait_impl_fn_name` -/
 def traitImplFnName (tr : Name) (forTy : Ty) (m : Name) : Name :=
-  "trait_impl#".toList ++ tr ++ ['#'] ++ tyCompact forTy ++ ['#'] ++ m
+  ['t', 'r', 'a', 'i', 't', '_', 'i', 'm', 'p', 'l', '#'] ++ tr ++ ['#'] ++ tyCompact forTy ++ ['#'] ++ m
 
 def isPrimitive : Ty → Bool
   | .prim _ => true
@@ -250,18 +250,18 @@ def isPrimitive : Ty → Bool
 
 /-- `names::inherent_base` -/
 def inherentBase : Ty → Name
-  | .prim p => (inherentBasePrim p).toList
+  | .prim p => inherentBasePrim p
   | .tenum n => n
   | .tstruct n => n
   | .tapp t a => (constrName (.tapp t a)).getD panicMark
-  | .tvec _ => "Vec".toList
-  | .tref _ => "Ref".toList
+  | .tvec _ => ['V', 'e', 'c']
+  | .tref _ => ['R', 'e', 'f']
   | other => tyCompact other
 
 /-- `names::inherent_method_fn_name` -/
 def inherentMethodFnName (recv : Ty) (m : Name) : Name :=
   if isPrimitive recv then inherentBase recv ++ ['_'] ++ m
-  else "inherent#".toList ++ inherentBase recv ++ ['#'] ++ tyCompact recv ++ ['#'] ++ m
+  else ['i', 'n', 'h', 'e', 'r', 'e', 'n', 't', '#'] ++ inherentBase recv ++ ['#'] ++ tyCompact recv ++ ['#'] ++ m
 
 /-- lexicographic order on code points (= Rust's `String::cmp`, byte order of UTF-8) -/
 def nameLe : Name → Name → Bool
@@ -281,13 +281,13 @@ def sortByKey : List (Name × Ty) → List (Name × Ty)
 def specNameFor (orig : Name) (subst : List (Name × Ty)) : Name :=
   match subst with
   | [] => orig
-  | _ => orig ++ "__".toList ++ join "__".toList ((sortByKey subst).map fun (k, v) => k ++ ['_'] ++ tyCompact v)
+  | _ => orig ++ ['_', '_'] ++ join ['_', '_'] ((sortByKey subst).map fun (k, v) => k ++ ['_'] ++ tyCompact v)
 
 /-- `TypeMono::ensure_instance`: name of the monomorphic copy of a generic enum/struct -/
 def monoTypeName (name : Name) (args : List Ty) : Name :=
   match args with
   | [] => name
-  | _ => name ++ "__".toList ++ join "__".toList (args.map tyCompact)
+  | _ => name ++ ['_', '_'] ++ join ['_', '_'] (args.map tyCompact)
 
 /-! ### closures (`lift.rs`) -/
 
@@ -310,15 +310,15 @@ def sanitizeEnvName (name : Name) : Option Name :=
 /-- `State::fresh_struct_name` -/
 def closureEnvName (hint : Option Name) (id : Nat) : Name :=
   match hint with
-  | some h => closureEnvPrefix.toList ++ h ++ ['_'] ++ digits id
-  | none => closureEnvPrefix.toList ++ digits id
+  | some h => closureEnvPrefix ++ h ++ ['_'] ++ digits id
+  | none => closureEnvPrefix ++ digits id
 
 /-- `make_field_name` -/
 def closureFieldName (name : Name) (index : Nat) : Name :=
-  ((sanitizeEnvName name).getD "field".toList) ++ ['_'] ++ digits index
+  ((sanitizeEnvName name).getD ['f', 'i', 'e', 'l', 'd']) ++ ['_'] ++ digits index
 
 /-- name of the lifted function of a closure whose environment struct is `env` -/
-def closureApplyName (env : Name) : Name := inherentMethodFnName (.tstruct env) closureApplyMethod.toList
+def closureApplyName (env : Name) : Name := inherentMethodFnName (.tstruct env) closureApplyMethod
 
 /-! ### Go backend (`go/compile.rs`, `go/runtime.rs`) -/
 
@@ -331,22 +331,22 @@ def variantStructName (enums : List (Name × List Name)) (structs : List Name) (
     goIdent enumName ++ ['_'] ++ goIdent variant
   else goIdent variant
 
-def dynVtableStructName (tr : Name) : Name := goIdent ("dyn__".toList ++ tr ++ "_vtable".toList)
+def dynVtableStructName (tr : Name) : Name := goIdent (['d', 'y', 'n', '_', '_'] ++ tr ++ ['_', 'v', 't', 'a', 'b', 'l', 'e'])
 def dynVtableCtorName (tr : Name) (forTy : Ty) : Name :=
-  goIdent ("dyn__".toList ++ tr ++ "__vtable__".toList ++ encodeTy forTy)
+  goIdent (['d', 'y', 'n', '_', '_'] ++ tr ++ ['_', '_', 'v', 't', 'a', 'b', 'l', 'e', '_', '_'] ++ encodeTy forTy)
 def dynWrapName (tr : Name) (forTy : Ty) (m : Name) : Name :=
-  goIdent ("dyn__".toList ++ tr ++ "__wrap__".toList ++ encodeTy forTy ++ "__".toList ++ m)
+  goIdent (['d', 'y', 'n', '_', '_'] ++ tr ++ ['_', '_', 'w', 'r', 'a', 'p', '_', '_'] ++ encodeTy forTy ++ ['_', '_'] ++ m)
 /-- `format!("is{}", go_ident(enum))` -/
-def enumMarkerMethod (enumName : Name) : Name := "is".toList ++ goIdent enumName
+def enumMarkerMethod (enumName : Name) : Name := ['i', 's'] ++ goIdent enumName
 
 /-- `array_helper_fn_name` / `ref_helper_fn_name` (same body) -/
-def helperFnName (pfx : Name) (t : Ty) : Name := pfx ++ "__".toList ++ goIdent (encodeTy t)
+def helperFnName (pfx : Name) (t : Ty) : Name := pfx ++ ['_', '_'] ++ goIdent (encodeTy t)
 
 def endsWith (n suffix : Name) : Bool := suffix.length ≤ n.length && n.drop (n.length - suffix.length) == suffix
 
 /-- the name `compile_fn` gives a top-level function -/
 def compileFnName (name : Name) : Name :=
-  if name == entrySrc.toList || endsWith name ("::".toList ++ entrySrc.toList) then entryGo.toList else goIdent name
+  if name == entrySrc || endsWith name ([':', ':'] ++ entrySrc) then entryGo else goIdent name
 
 /-! ### locals and temporaries -/
 
@@ -359,7 +359,7 @@ def renameLocal (n : Name) : Name := n.flatMap fun c => if c == '/' then ['_', '
 /-- `Gensym::gensym` -/
 def gensymName (pfx : Name) (n : Nat) : Name := pfx ++ digits n
 
-def gensymPrefixNames : List Name := gensymPrefixes.map String.toList
+def gensymPrefixNames : List Name := gensymPrefixes
 
 /-- the Go identifier of a source local -/
 def goLocal (hint : Name) (idx : Nat) : Name := goIdent (renameLocal (localName hint idx))
